@@ -7,7 +7,7 @@ From GZ Require Import Lib.RollingWindow Lib.RollingWindowSpec Lib.RollingWindow
 From GZ Require Import C16.Model C16.ProofsMap C16.ProofsSeq C16.ProofsCache C16.ProofsCacheLru.
 From GZ Require Import C16.ModelW C16.ProofsW C16.ProofsWClamp.
 From GZ Require Import C16.Lin C16.ProofsLin C16.Check C16.ProofsExtra C16.ProofsRefW C16.ProofsHold.
-From GZ Require Import C16.ModelGate C16.ProofsGate.
+From GZ Require Import C16.ModelGate C16.ProofsGate C16.ProofsStress.
 Import ListNotations.
 Open Scope Z_scope.
 
@@ -349,6 +349,26 @@ Example ex_take_held :
   cc_run (fst (fst (c_take_held c 1 (Some 10) inner))) [CHeld; CC (CTake 1 (Some 99))] =
     [OList [1; 3]; OTake (Some 10) false].
 Proof. vm_compute. repeat split; repeat constructor; discriminate. Qed.
+
+(* Goroutines that use DISJOINT keys of one map cannot influence each other's answers: in every
+   interleaving (operations tagged with their goroutine, in the order they took effect; keyed
+   operations only) what the operations of one goroutine return is what they return when it runs
+   alone from the same state.  The sequential history "script 1, script 2, ..." is one such
+   interleaving: this is why the kind stress (3-4 goroutines on their own keys, run under the race
+   detector) is judged against that history. *)
+Theorem map_disjoint_keys_independent : forall (T : Type) (mine : T -> bool) (ops : list (T * smop)) (m : amap),
+  (forall p, In p ops -> mkey (snd p) <> None) ->
+  (forall k, uses T mine true k ops -> ~ uses T mine false k ops) ->
+  own_obs T mine (map_run_tagged m ops) = map_run m (own T mine ops).
+Proof. exact disjoint_keys_independent_proof. Qed.
+Print Assumptions map_disjoint_keys_independent.
+
+(* non-vacuity: goroutine 1 on key 1, goroutine 2 on key 2, interleaved *)
+Example ex_disjoint_keys :
+  let ops := [(1, MSet 1 10); (2, MSet 2 20); (2, MDel 2); (1, MGet 1); (2, MGet 2); (1, MDel 1); (1, MGet 1)] in
+  own_obs Z (Z.eqb 1) (map_run_tagged [] ops) = [OUnit; OOpt (Some 10); OUnit; OOpt None] /\
+  map_run [] (own Z (Z.eqb 1) ops) = [OUnit; OOpt (Some 10); OUnit; OOpt None].
+Proof. vm_compute. split; reflexivity. Qed.
 
 (* ------------------------------------------------------------------ *)
 (* Cache composed with C12's timing wheel (C16/ModelW.v): expiry is the wheel's own
